@@ -251,7 +251,16 @@ func runC02(em *vEmitter, r *vRng) {
 			x.file([]byte(vRecordLine(p, 1700000000, salt, append(append([]byte{}, dig...), 0))+"\n"), pw, "mut/digest-extended", true)
 			x.file([]byte(vRecordLine(p, 1700000000, nil, p.kdf(nil, pw))+"\n"), pw, "edge/empty-salt-right-digest", true)
 			x.file([]byte(vRecordLine(p, 1700000000, salt[:len(salt)/2], p.kdf(salt[:len(salt)/2], pw))+"\n"), pw, "foreign/short-salt", true)
-			// (9) huge lines
+			// (8b) digest computed for the right password and salt under a NEIGHBOUR of the configured
+		// parameter set (one parameter changed), filed under the configured id: must not authenticate
+		for _, q := range c02Near(p) {
+			d := q.kdf(salt, pw)
+			if d == nil || bytes.Equal(d, dig) {
+				continue
+			}
+			x.file([]byte(vRecordLine(p, 1700000000, salt, d)+"\n"), pw, "foreign/near-parameters", true)
+		}
+		// (9) huge lines
 			huge := append([]byte(line), bytes.Repeat([]byte{'A'}, 65536)...)
 			x.file(append(huge, '\n'), pw, "mut/huge-line-64k", pi == 0)
 			x.file(append(bytes.Repeat([]byte{'x'}, 1<<20), valid...), pw, "mut/huge-prefix-1m", false)
@@ -277,4 +286,46 @@ func runC02(em *vEmitter, r *vRng) {
 		// directory instead of a file, empty file
 		x.file(nil, []byte("pw"), "edge/empty-file", true)
 	}
+}
+
+// parameter sets that differ from p in exactly one parameter
+func c02Near(p vParam) []vParam {
+	var out []vParam
+	if p.Scrypt {
+		q := p
+		q.Cost = p.Cost + 1
+		out = append(out, q)
+		q = p
+		q.R = 3
+		out = append(out, q)
+		q = p
+		q.P = 3
+		out = append(out, q)
+		q = p
+		q.Key = append([]byte{}, p.Key...)
+		q.Key[0] ^= 1
+		out = append(out, q)
+		q = p
+		q.Key = p.Key[:len(p.Key)-1]
+		out = append(out, q)
+		return out
+	}
+	for _, l := range []uint32{1, 4, 16, 20, 31, 32, 33, 64} {
+		if l != p.Length {
+			q := p
+			q.Length = l
+			out = append(out, q)
+		}
+	}
+	q := p
+	q.Time = p.Time + 1
+	out = append(out, q)
+	q = p
+	q.Memory = p.Memory * 2
+	out = append(out, q)
+	q = p
+	q.Threads = p.Threads + 1
+	q.Memory = p.Memory * 2
+	out = append(out, q)
+	return out
 }
